@@ -113,34 +113,71 @@ def _assign(scope, name, env=None, what=""):
         raise NotExtractable("%s%s: %s" % (what, name, e))
 
 
-def extract():
-    """-> dict of python values"""
+PINNED = os.path.join(HERE, "pinned_tables.json")
+
+
+def _jsonable(v):
+    if isinstance(v, dict):
+        return {"__dict__": [[_jsonable(k), _jsonable(x)] for k, x in v.items()]}
+    if isinstance(v, (list, tuple)):
+        return [_jsonable(x) for x in v]
+    if isinstance(v, float):
+        return {"__float__": repr(v)}
+    return v
+
+
+def _unjson(v):
+    if isinstance(v, dict) and "__dict__" in v:
+        return {_unjson(k): _unjson(x) for k, x in v["__dict__"]}
+    if isinstance(v, dict) and "__float__" in v:
+        return float(v["__float__"])
+    if isinstance(v, list):
+        return [_unjson(x) for x in v]
+    return v
+
+
+def extract(fallback=None, missing=None):
+    """-> dict of python values.  A table that can no longer be extracted is taken from `fallback` (the pinned
+    literals) and its name appended to `missing`; without a fallback NotExtractable propagates."""
     t = {}
-    pc = _parse("py_common.py")
-    t["crcG"] = _assign(_find_func(pc, "crc"), "G", what="py_common.crc.")
-    t["crcLegacyGen"] = _assign(_find_func(pc, "crc_legacy"), "generator", what="py_common.crc_legacy.")
-    b08 = _parse("decoder/bds/bds08.py")
-    t["callsignChars"] = _assign(_find_func(b08, "callsign"), "chars", what="bds08.callsign.")
-    b20 = _parse("decoder/bds/bds20.py")
-    t["cs20Chars"] = _assign(_find_func(b20, "cs20"), "chars", what="bds20.cs20.")
-    b06 = _parse("decoder/bds/bds06.py")
-    sv = _find_func(b06, "surface_velocity")
-    t["movLb"] = _assign(sv, "mov_lb", what="bds06.")
-    t["ktsLb"] = _assign(sv, "kts_lb", what="bds06.")
-    t["movStep"] = _assign(sv, "step", what="bds06.")
-    b17 = _parse("decoder/bds/bds17.py")
-    t["cap17All"] = _assign(_find_func(b17, "cap17"), "allbds", what="bds17.cap17.")
-    un = _parse("decoder/uncertainty.py")
+
+    def get(key, thunk):
+        try:
+            t[key] = thunk()
+        except NotExtractable as e:
+            if fallback is None or key not in fallback:
+                raise
+            t[key] = fallback[key]
+            if missing is not None:
+                missing.append("%s (%s)" % (key, e))
+        except (OSError, SyntaxError) as e:
+            if fallback is None or key not in fallback:
+                raise NotExtractable("%s: %s" % (key, e))
+            t[key] = fallback[key]
+            if missing is not None:
+                missing.append("%s (%s)" % (key, e))
+
+    def src(rel):
+        try:
+            return _parse(rel)
+        except (OSError, SyntaxError) as e:
+            raise NotExtractable("%s: %s" % (rel, e))
+
+    get("crcG", lambda: _assign(_find_func(src("py_common.py"), "crc"), "G", what="py_common.crc."))
+    get("crcLegacyGen", lambda: _assign(_find_func(src("py_common.py"), "crc_legacy"), "generator", what="py_common.crc_legacy."))
+    get("callsignChars", lambda: _assign(_find_func(src("decoder/bds/bds08.py"), "callsign"), "chars", what="bds08.callsign."))
+    get("cs20Chars", lambda: _assign(_find_func(src("decoder/bds/bds20.py"), "cs20"), "chars", what="bds20.cs20."))
+    for key, name in (("movLb", "mov_lb"), ("ktsLb", "kts_lb"), ("movStep", "step")):
+        get(key, lambda name=name: _assign(_find_func(src("decoder/bds/bds06.py"), "surface_velocity"), name, what="bds06."))
+    get("cap17All", lambda: _assign(_find_func(src("decoder/bds/bds17.py"), "cap17"), "allbds", what="bds17.cap17."))
     env = {"NA": None}
     for k in ["TC_NUCp_lookup", "TC_NICv1_lookup", "TC_NICv2_lookup", "NUCp", "NUCv",
               "NACp", "NACv", "SIL", "NICv1", "NICv2"]:
-        t[k] = _assign(un, k, env, what="uncertainty.")
-    t["NA"] = _assign(un, "NA", {}, what="uncertainty.")
-    rt = _parse("extra/rtlreader.py")
+        get(k, lambda k=k: _assign(src("decoder/uncertainty.py"), k, env, what="uncertainty."))
+    get("NA", lambda: _assign(src("decoder/uncertainty.py"), "NA", {}, what="uncertainty."))
     for k in ["pbits", "fbits", "preamble", "th_amp_diff", "smaples_per_microsec"]:
-        t["rtl_" + k] = _assign(rt, k, what="rtlreader.")
-    dc = _parse("streamer/decode.py")
-    t["cacheTimeout"] = _assign(_find_func(dc, "__init__", "Decode"), "cache_timeout", what="Decode.")
+        get("rtl_" + k, lambda k=k: _assign(src("extra/rtlreader.py"), k, what="rtlreader."))
+    get("cacheTimeout", lambda: _assign(_find_func(src("streamer/decode.py"), "__init__", "Decode"), "cache_timeout", what="Decode."))
     return t
 
 
@@ -245,8 +282,20 @@ def emit(t):
 
 
 def main():
+    """exit 0: tables written (possibly with fall-backs, listed in Generated/status.json); exit 3: not even a fall-back"""
+    import json
+    fallback = None
+    if os.path.exists(PINNED):
+        fallback = _unjson(json.load(open(PINNED)))
+    if "--pin" in sys.argv:
+        t = extract()
+        with open(PINNED, "w") as f:
+            json.dump(_jsonable(t), f, indent=0, sort_keys=True)
+        print("pinned", len(t), "tables")
+        return 0
+    missing = []
     try:
-        text = emit(extract())
+        text = emit(extract(fallback, missing))
     except NotExtractable as e:
         print("NOT-EXTRACTABLE %s" % e)
         return 3
@@ -263,6 +312,10 @@ def main():
         print("tables: rewritten")
     else:
         print("tables: unchanged")
+    with open(os.path.join(os.path.dirname(out), "status.json"), "w") as f:
+        json.dump({"fallback": missing}, f)
+    for m in missing:
+        print("FALLBACK %s" % m)
     return 0
 
 
